@@ -37,14 +37,26 @@ def case_map(sw):
                 pass
             out[x.id] = list(current)
         # does this statement end the arm?
-        last = s
-        if last.k == "compound" and last.kids:
-            last = last.kids[-1]
-        if last.k in ("break", "return", "goto", "continue") or \
-                (last.k == "call" and last.fn.tu.decls.get(last.callee or "", {}).get("noreturn")):
+        if cannot_complete(s):
             terminated = True
     _CASEMAP_CACHE[key] = out
     return out
+
+
+def cannot_complete(s):
+    """statement never falls through to the next one (syntactic): break/return/goto/continue, a call to a
+    noreturn function, a block ending in such a statement, or an if/else whose arms both cannot complete"""
+    if s is None:
+        return False
+    if s.k in ("break", "return", "goto", "continue"):
+        return True
+    if s.k == "call":
+        return bool(s.fn.tu.decls.get(s.callee or "", {}).get("noreturn"))
+    if s.k == "compound":
+        return bool(s.kids) and cannot_complete(s.kids[-1])
+    if s.k == "if":
+        return len(s.kids) >= 3 and cannot_complete(s.kids[1]) and cannot_complete(s.kids[2])
+    return False
 
 
 def enclosing_cases(node):
